@@ -10,6 +10,7 @@ package c03
 
 import (
 	"os"
+	"runtime"
 	"sync"
 	"testing"
 
@@ -25,6 +26,7 @@ func TestC03(t *testing.T) {
 		"peer/protocol scopes made sticky through SetLimit are not exercised")
 
 	race := os.Getenv("VERIF_RACE") == "1"
+	only := os.Getenv("C03_ONLY") // trials only: seq | conc | lin
 	var mu sync.Mutex
 	merge := func(m map[string]int) {
 		mu.Lock()
@@ -39,23 +41,106 @@ func TestC03(t *testing.T) {
 			r.Violation("selfcheck:implementation-logged-over-release", "global", "the resource manager logged that more was released than had been charged (it then clamps the counter at zero)", map[string]any{"count": n, "first": bugLogFirst})
 		}
 	}()
-	nc := r.Pick(50, 2000)
-	if race {
-		nc = r.Pick(12, 150)
-	}
-	run.Parallel(nc, 2, func(i int) {
-		if r.TooMany() {
-			return
-		}
-		runConcCase(r, i, race, merge)
-	})
-	if !race {
-		n := r.Pick(2000, 100000)
+
+	// 1. sequential histories against the reference model (virtual time)
+	if !race && (only == "" || only == "seq") {
+		n := r.Pick(2000, 40000)
 		run.Parallel(n, 0, func(i int) {
 			if r.TooMany() {
 				return
 			}
 			runSeqCase(t, r, i, merge)
 		})
+		for _, k := range requiredSeqClasses {
+			r.Require("class/"+k, 1)
+		}
+		r.Require("f4_shape_reached", 1)
+		r.Require("gc_ticks", 100)
+		r.Require("gc_scopes_predicted_collected", 100)
+		r.Require("final_direct_reservation_left_to_gc", 10)
+		r.Require("seq_histories_completed_zero", r.Pick(1000, 20000))
+		r.Require("view_reads", 100)
 	}
+
+	// 2. concurrent workload: sampler + conservation audits; in the thorough tier crossed with GOMAXPROCS
+	if !r.TooMany() && (only == "" || only == "conc") {
+		nc := r.Pick(50, 1000)
+		if race {
+			nc = r.Pick(12, 120)
+		}
+		procs := []int{0}
+		if !r.Quick() && !race {
+			procs = []int{1, 2, 4, 0}
+		}
+		old := runtime.GOMAXPROCS(0)
+		for pi, p := range procs {
+			if p > 0 {
+				runtime.GOMAXPROCS(p)
+			}
+			lo, hi := pi*nc/len(procs), (pi+1)*nc/len(procs)
+			run.Parallel(hi-lo, 2, func(i int) {
+				if r.TooMany() {
+					return
+				}
+				runConcCase(r, lo+i, race, merge)
+			})
+			runtime.GOMAXPROCS(old)
+		}
+		r.Require("conc_audits", 4*nc/2)
+		r.Require("conc_sampler_snapshots", nc)
+		r.Require("conc_gc_runs_during_workload", nc)
+		r.Require("conc_reparented", nc)
+		r.Require("conc_refused", nc)
+		r.Require("conc_accepted", nc)
+		r.Require("conc_allowlisted_conns", 1)
+	}
+
+	// 3. single-scope linearizability (porcupine)
+	if !r.TooMany() && (only == "" || only == "lin") {
+		nl := r.Pick(150, 3000)
+		if race {
+			nl = r.Pick(30, 300)
+		}
+		run.Parallel(nl, 4, func(i int) {
+			if r.TooMany() {
+				return
+			}
+			runPorcCase(r, i, merge)
+		})
+		r.Require("lin_ok", nl/2)
+	}
+}
+
+// requiredSeqClasses: every (operation, refusing scope) position the check exists to exercise:
+// each scope of every reservation chain must have been THE refusing one (so the undo of the already
+// charged prefix ran), every re-parenting refusal, every Done flavour. A run that misses one fails
+// itself as INCONCLUSIVE.
+var requiredSeqClasses = []string{
+	"OpenConnection.refuse@conn", "OpenConnection.refuse@transient", "OpenConnection.refuse@system", "OpenConnection.refuse@subnet-cap",
+	"OpenConnection.refuse/al@altransient", "OpenConnection.refuse/al@alsystem",
+	"OpenConnection.accept-allowlisted/std@transient", "OpenConnection.accept-allowlisted/std@system",
+	"OpenStream.refuse@stream", "OpenStream.refuse@peer", "OpenStream.refuse@transient", "OpenStream.refuse@system",
+	"ReserveMemory.conn.refuse@conn", "ReserveMemory.conn.refuse@transient", "ReserveMemory.conn.refuse@system",
+	"ReserveMemory.conn+peer.refuse@conn", "ReserveMemory.conn+peer.refuse@peer", "ReserveMemory.conn+peer.refuse@system",
+	"ReserveMemory.alconn.refuse@conn", "ReserveMemory.alconn.refuse@altransient", "ReserveMemory.alconn.refuse@alsystem",
+	"ReserveMemory.alconn+peer.refuse@conn", "ReserveMemory.alconn+peer.refuse@peer", "ReserveMemory.alconn+peer.refuse@alsystem",
+	"ReserveMemory.stream.refuse@stream", "ReserveMemory.stream.refuse@peer", "ReserveMemory.stream.refuse@transient", "ReserveMemory.stream.refuse@system",
+	"ReserveMemory.stream+proto.refuse@stream", "ReserveMemory.stream+proto.refuse@peer", "ReserveMemory.stream+proto.refuse@proto.peer",
+	"ReserveMemory.stream+proto.refuse@proto", "ReserveMemory.stream+proto.refuse@system",
+	"ReserveMemory.stream+proto+svc.refuse@stream", "ReserveMemory.stream+proto+svc.refuse@peer", "ReserveMemory.stream+proto+svc.refuse@proto.peer",
+	"ReserveMemory.stream+proto+svc.refuse@svc.peer", "ReserveMemory.stream+proto+svc.refuse@proto", "ReserveMemory.stream+proto+svc.refuse@svc",
+	"ReserveMemory.stream+proto+svc.refuse@system",
+	"ReserveMemory.span:conn.refuse@transient", "ReserveMemory.span:conn+peer.refuse@peer", "ReserveMemory.span:stream.refuse@peer",
+	"ReserveMemory.span:stream+proto+svc.refuse@svc", "ReserveMemory.span:view.peer.refuse@system",
+	"ReserveMemory.view.system.refuse@system", "ReserveMemory.view.transient.refuse@transient", "ReserveMemory.view.transient.refuse@system",
+	"ReserveMemory.view.svc.refuse@svc", "ReserveMemory.view.svc.refuse@system", "ReserveMemory.view.proto.refuse@proto", "ReserveMemory.view.proto.refuse@system",
+	"ReserveMemory.view.peer.refuse@peer", "ReserveMemory.view.peer.refuse@system", "ReserveMemory.refuse@closed",
+	"SetPeer.accept", "SetPeer.accept-allowlisted", "SetPeer.accept-after-transfer", "SetPeer.refuse@peer", "SetPeer.refuse@already-attached",
+	"SetPeer.transfer-ok-refuse@peer",
+	"SetProtocol.accept", "SetProtocol.refuse@proto", "SetProtocol.refuse@proto.peer", "SetProtocol.refuse@already-attached",
+	"SetService.accept", "SetService.refuse@svc", "SetService.refuse@svc.peer", "SetService.refuse@no-protocol", "SetService.refuse@already-attached",
+	"BeginSpan.refuse@closed", "BeginSpan.on-orphan", "BeginSpan.span:conn", "BeginSpan.view.peer",
+	"Done.conn.repeated", "Done.stream.repeated", "Done.span.repeated", "Done.conn.with-open-spans", "Done.stream.with-open-spans",
+	"Done.span.with-open-spans", "Done.span.owner-already-closed",
+	"ReleaseMemory.conn", "ReleaseMemory.stream+proto+svc", "ReleaseMemory.span:conn", "ReleaseMemory.view.peer",
 }
